@@ -56,7 +56,18 @@ def check_file(ctx, r, idx, ml, bd_path):
 		ddf = data_dump.DATADumpFile(bio)
 	objs = [msgs.to_real(m) for m in ml]
 	try:
-		if by_path and n >= 2 and r.random() < 0.5:
+		if n >= 3 and r.random() < 0.35:
+			# appends interleaved with reads through the same object: a read leaves the position
+			# somewhere inside the file, what is appended afterwards must still end up behind everything
+			k1 = r.randrange(1, n - 1)
+			k2 = r.randrange(k1 + 1, n)
+			ddf.append_all(objs[:k1])
+			g = ddf.parse_msg(r.randrange(k1))
+			ddf.append_all(objs[k1:k2])
+			g = ddf.parse_all(r.randrange(k2), 1)
+			ddf.append_all(objs[k2:])
+			ctx.count("files_with_reads_between_appends")
+		elif by_path and n >= 2 and r.random() < 0.5:
 			# written in two sessions: the capture is re-opened by path and appended to
 			k = r.randrange(1, n)
 			ddf.append_all(objs[:k])
@@ -223,6 +234,7 @@ def run(ctx):
 	ctx.require("cut_on_boundary", 500)
 	ctx.require("slices_compared", 2000)
 	ctx.require("indexed_reads", 1000)
+	ctx.require("files_with_reads_between_appends", 20)
 
 
 def replay(ctx, data):
